@@ -185,7 +185,9 @@ def check_weighted_concrete(c, H, U, label):
 
 class _BuildHank(Contract):
     qualname = "pyoma2.functions.ssi.build_hank"
-    props = ("C12",)
+    # C01 and C03 rest on this function too (single-setup and multi-setup SSI build their Hankel matrices with it): its contract - including
+    # the frame clause that the data handed in are left as they were - is part of what those properties depend on
+    props = ("C12", "C01", "C03")
     method = "cov_mm"
 
     def setup(self, c):
